@@ -614,6 +614,15 @@ def np_call(ev, name, args, kwargs, node):
         if len(A) == 3:
             return mk_app("where", [as_v(ev, A[0]), as_v(ev, A[1]), as_v(ev, A[2])])
         return App("nonzero", (as_v(ev, A[0]),))
+    if name == "any" and len(A) == 1 and "axis" not in kwargs:
+        xv = as_v(ev, A[0])
+        b0 = xv
+        while isinstance(b0, App) and b0.fn == "store":
+            b0 = b0.args[0]
+        if isinstance(b0, App) and b0.fn in ("rng:binomial", "rng:poisson"):
+            # multiplicities are non-negative integers: any(x) is sum(x) != 0
+            from .terms import cmp0
+            return cmp0("ne", to_poly(np_call(ev, "sum", [xv], {}, node)))
     if name == "select":
         # np.select(condlist, choicelist, default=0): the first true condition wins
         cl, ch = arg(0, "condlist"), arg(1, "choicelist")
@@ -1180,6 +1189,10 @@ def getitem(ev, base, idx, node=None):
             return base.items[idx]
         if not base.unknown and (not base.items or (isinstance(idx, Const) and all(isinstance(k, Const) for k in base.items))):
             raise RaiseSignal(App("KeyError", (as_v(ev, idx),)), node)
+        if not base.unknown and isinstance(idx, V) and to_poly(idx) is not None:
+            for k, v_ in base.items.items():
+                if isinstance(k, V) and to_poly(k) is not None and ev.known_truth(compare("==", idx, k)) is True:
+                    return v_     # the path condition says idx equals this key
         return App("dict.getitem", (as_v(ev, base), as_v(ev, idx)))
     if isinstance(base, Lst):
         if is_const(idx) and not base.pappends and not base.unknown:
@@ -1268,6 +1281,10 @@ def contains(ev, container, item, node=None):
     if isinstance(container, Dct):
         if item in container.items:
             return TRUE
+        if not container.unknown and container.items and isinstance(item, V) and all(isinstance(k, V) and to_poly(k) is not None for k in container.items) \
+                and to_poly(item) is not None:
+            # numeric keys: membership is equality with one of the keys
+            return disj([compare("==", item, k) for k in container.items])
         if not container.unknown and (not container.items or (isinstance(item, Const) and all(isinstance(k, Const) for k in container.items))):
             return FALSE
     if isinstance(item, App) and item.fn == "elem" and isinstance(container, V) and item.args[0] == container:
